@@ -406,6 +406,17 @@ def _static_tree_product_message(tree_path: str, path: str) -> str:
     )
 
 
+def _nested_static_tree_message(parent_path: str, child_path: str) -> str:
+    """Format the error for two static trees of which one contains the other.
+
+    The same text is used whichever of the two trees is declared last.
+    """
+    return (
+        f"Static tree ({parent_path}) is a parent directory of static tree ({child_path}): "
+        "static trees cannot be nested, in either order."
+    )
+
+
 def _volatile_input_message(path: str) -> str:
     """Format the error for a path that is both a volatile output and an input of a step.
 
@@ -1876,13 +1887,15 @@ class Workflow(Trellis):
                         _creator_phrase(creator.kind(), creator.label),
                     )
                 )
-            raise GraphError(f"Static tree is a subdirectory of an existing static tree: {path}")
+            raise GraphError(_nested_static_tree_message(static_tree.label, path))
         clause, pattern = prefix_clause("node.label", path)
-        sql = f"SELECT 1 FROM node WHERE kind = 'st' AND NOT detached AND {clause}"
-        if self.db.execute(sql, (pattern,)).fetchone() is not None:
-            raise GraphError(
-                f"Static tree is a parent directory of an existing static tree: {path}"
-            )
+        sql = (
+            "SELECT label FROM node "
+            f"WHERE kind = 'st' AND NOT detached AND {clause} ORDER BY label LIMIT 1"
+        )
+        row = self.db.execute(sql, (pattern,)).fetchone()
+        if row is not None:
+            raise GraphError(_nested_static_tree_message(path, row[0]))
         # A static tree is the sole owner of the files under it.
         # Attached file nodes already present under this path are therefore
         # either this creator's own static declarations, which the tree takes over below,
